@@ -277,6 +277,140 @@ impl<K: KeyT> World<K> {
         out
     }
 
+    /// `ctor <slot> <kind> <ctor> <capBuilder> <strings> <bytes> <limBuilder> <limit> <items>`: build through one
+    /// of the constructors and the `Capacity` / `MemoryLimits` builders; answer `ok <usage> <limit> <trace>`
+    /// where the trace interns `items` into a second object built the same way.  Oracle (C08): usage and
+    /// limit are the documented ones and the trace equals that of the full constructor called with the
+    /// documented configuration.
+    #[allow(clippy::too_many_arguments)]
+    fn ctor(&mut self, si: usize, kind: &str, ctor: &str, cap_b: &str, strings: usize, bytes: usize, lim_b: &str, limit: &str, items: &str) -> String {
+        use lasso::{Capacity, MemoryLimits};
+        let Some(nz) = std::num::NonZeroUsize::new(bytes) else { return "bad-op".into() };
+        let limit = parse_limit(limit).unwrap_or(usize::MAX);
+        let cap = || match cap_b {
+            "new" => Some(Capacity::new(strings, nz)),
+            "forStrings" => Some(Capacity::for_strings(strings)),
+            "forBytes" => Some(Capacity::for_bytes(nz)),
+            "minimal" => Some(Capacity::minimal()),
+            "default" => Some(Capacity::default()),
+            _ => None,
+        };
+        let lim = || match lim_b {
+            "new" => Some(MemoryLimits::new(limit)),
+            "forMemoryUsage" => Some(MemoryLimits::for_memory_usage(limit)),
+            "default" => Some(MemoryLimits::default()),
+            _ => None,
+        };
+        if cap().is_none() || lim().is_none() {
+            return "bad-op".into();
+        }
+        let (cap, lim) = (move || cap().unwrap(), move || lim().unwrap());
+        // the documented configuration (the harness's own table, not read from the library)
+        let takes_cap = matches!(ctor, "withCapacity" | "withCapacityAndMemoryLimits" | "withCapacityAndHasher" | "full");
+        let takes_lim = matches!(ctor, "withMemoryLimits" | "withCapacityAndMemoryLimits" | "full");
+        let (doc_strings, doc_bytes) = if !takes_cap { (50, 4096) } else {
+            match cap_b {
+                "new" => (strings, bytes),
+                "forStrings" => (strings, 4096),
+                "forBytes" => (50, bytes),
+                "minimal" => (0, 1),
+                _ => (50, 4096),
+            }
+        };
+        let doc_limit = if !takes_lim || lim_b == "default" { usize::MAX } else { limit };
+        let items: Vec<Vec<u8>> = if items == "_" { Vec::new() } else { items.split(',').map(unhex).collect() };
+        fn trace_r<K: Key, S: std::hash::BuildHasher>(mut r: Rodeo<K, S>, items: &[Vec<u8>]) -> (usize, usize, Vec<String>) {
+            let (m0, x0) = (r.current_memory_usage(), r.max_memory_usage());
+            let t = items.iter().map(|x| {
+                let res = match r.try_get_or_intern(to_str(x)) { Ok(k) => format!("ok_{}", k.into_usize()), Err(e) => err_name(&e).replace(' ', "_") };
+                format!("{res}:{}", r.current_memory_usage())
+            }).collect();
+            (m0, x0, t)
+        }
+        fn trace_t<K: Key + std::hash::Hash, S: std::hash::BuildHasher + Clone>(r: ThreadedRodeo<K, S>, items: &[Vec<u8>]) -> (usize, usize, Vec<String>) {
+            let (m0, x0) = (r.current_memory_usage(), r.max_memory_usage());
+            let t = items.iter().map(|x| {
+                let res = match r.try_get_or_intern(to_str(x)) { Ok(k) => format!("ok_{}", k.into_usize()), Err(e) => err_name(&e).replace(' ', "_") };
+                format!("{res}:{}", r.current_memory_usage())
+            }).collect();
+            (m0, x0, t)
+        }
+        let h = || VHasher::new(self.hasher);
+        let doc_cap = Capacity::new(doc_strings, std::num::NonZeroUsize::new(doc_bytes).unwrap());
+        let doc_lim = MemoryLimits::for_memory_usage(doc_limit);
+        let res = guarded(|| -> Option<((usize, usize, Vec<String>), (usize, usize, Vec<String>), Obj<K>)> {
+            Some(match kind {
+                "rodeo" => {
+                    let got = match ctor {
+                        "new" => trace_r(Rodeo::<K>::new(), &items),
+                        "withCapacity" => trace_r(Rodeo::<K>::with_capacity(cap()), &items),
+                        "withMemoryLimits" => trace_r(Rodeo::<K>::with_memory_limits(lim()), &items),
+                        "withCapacityAndMemoryLimits" => trace_r(Rodeo::<K>::with_capacity_and_memory_limits(cap(), lim()), &items),
+                        "withHasher" => trace_r(Rodeo::<K, VHasher>::with_hasher(h()), &items),
+                        "withCapacityAndHasher" => trace_r(Rodeo::<K, VHasher>::with_capacity_and_hasher(cap(), h()), &items),
+                        "full" => trace_r(Rodeo::<K, VHasher>::with_capacity_memory_limits_and_hasher(cap(), lim(), h()), &items),
+                        _ => return None,
+                    };
+                    let want = trace_r(Rodeo::<K, VHasher>::with_capacity_memory_limits_and_hasher(doc_cap, doc_lim, h()), &items);
+                    // the slot gets the object itself where the constructor takes a hasher, else the documented one
+                    let o = match ctor {
+                        "withHasher" => Rodeo::<K, VHasher>::with_hasher(h()),
+                        "withCapacityAndHasher" => Rodeo::<K, VHasher>::with_capacity_and_hasher(cap(), h()),
+                        "full" => Rodeo::<K, VHasher>::with_capacity_memory_limits_and_hasher(cap(), lim(), h()),
+                        _ => Rodeo::<K, VHasher>::with_capacity_memory_limits_and_hasher(doc_cap, doc_lim, h()),
+                    };
+                    (got, want, Obj::Rodeo(o))
+                }
+                "threaded" => {
+                    let got = match ctor {
+                        "new" => trace_t(ThreadedRodeo::<K>::new(), &items),
+                        "withCapacity" => trace_t(ThreadedRodeo::<K>::with_capacity(cap()), &items),
+                        "withMemoryLimits" => trace_t(ThreadedRodeo::<K>::with_memory_limits(lim()), &items),
+                        "withCapacityAndMemoryLimits" => trace_t(ThreadedRodeo::<K>::with_capacity_and_memory_limits(cap(), lim()), &items),
+                        "withHasher" => trace_t(ThreadedRodeo::<K, VHasher>::with_hasher(h()), &items),
+                        "withCapacityAndHasher" => trace_t(ThreadedRodeo::<K, VHasher>::with_capacity_and_hasher(cap(), h()), &items),
+                        "full" => trace_t(ThreadedRodeo::<K, VHasher>::with_capacity_memory_limits_and_hasher(cap(), lim(), h()), &items),
+                        _ => return None,
+                    };
+                    let want = trace_t(ThreadedRodeo::<K, VHasher>::with_capacity_memory_limits_and_hasher(doc_cap, doc_lim, h()), &items);
+                    let o = match ctor {
+                        "withHasher" => ThreadedRodeo::<K, VHasher>::with_hasher(h()),
+                        "withCapacityAndHasher" => ThreadedRodeo::<K, VHasher>::with_capacity_and_hasher(cap(), h()),
+                        "full" => ThreadedRodeo::<K, VHasher>::with_capacity_memory_limits_and_hasher(cap(), lim(), h()),
+                        _ => ThreadedRodeo::<K, VHasher>::with_capacity_memory_limits_and_hasher(doc_cap, doc_lim, h()),
+                    };
+                    (got, want, Obj::Threaded(o, false))
+                }
+                _ => return None,
+            })
+        });
+        match res {
+            Caught::Ok(Some((got, want, o))) => {
+                let call = format!("{kind} {ctor}(Capacity::{cap_b}({strings},{bytes}), MemoryLimits::{lim_b}({}))", show_limit(limit));
+                if got.0 != doc_bytes {
+                    self.fail("C08", "ctor-initial-usage", format!("{call}: initial usage {} but the first block has {doc_bytes} bytes", got.0));
+                }
+                if got.1 != doc_limit {
+                    self.fail("C08", "ctor-limit", format!("{call}: limit {} in force, {} was asked for", show_limit(got.1), show_limit(doc_limit)));
+                }
+                if got.2 != want.2 {
+                    self.fail("C08", "ctor-behaviour-differs", format!("{call}: interning gives {:?}, the full constructor with the documented configuration gives {:?}", got.2, want.2));
+                }
+                *self.slot(si) = Slot { obj: o, shadow: Shadow::new(), born: "" };
+                format!("ok {} {}{}", got.0, show_limit(got.1), got.2.iter().map(|t| format!(" {t}")).collect::<String>())
+            }
+            Caught::Ok(None) => "bad-op".into(),
+            Caught::Panic => {
+                self.fail("C08", "ctor-panicked", format!("constructor {ctor} panicked"));
+                "panic".into()
+            }
+            Caught::Fault(site) => {
+                self.fail("C04", "fault-in-ctor", format!("constructor {ctor} faulted: {site}"));
+                "fault".into()
+            }
+        }
+    }
+
     /// `de <kind> <slot> <doc>`; `valid` documents come from `ser`-shaped content, everything else is
     /// the malformed stream (C15): the outcome must be an error or a self-consistent object.
     fn de(&mut self, kind: &str, si: usize, doc: &str) -> String {
@@ -424,6 +558,7 @@ impl<K: KeyT> World<K> {
         match res {
             Caught::Ok(Some(Ok(o))) => {
                 let mut sh = self.slots[a].shadow.clone();
+                sh.limit = None;
                 for s in sh.stat.iter_mut() {
                     *s = None;
                 }
@@ -568,7 +703,7 @@ impl<K: KeyT> World<K> {
         let p = |i: usize| -> usize { toks.get(i).and_then(|s| s.parse().ok()).unwrap_or(usize::MAX) };
         // every operation on a slot that holds nothing is a bad-op (the model does the same)
         let subjects: &[usize] = match opname {
-            "new" | "de" | "fromIter" | "drop" => &[],
+            "new" | "ctor" | "de" | "fromIter" | "drop" => &[],
             "cloneFrom" | "tryCloneFrom" | "eq" => &[1, 2],
             _ => &[1],
         };
@@ -599,6 +734,7 @@ impl<K: KeyT> World<K> {
                 *self.slot(si) = Slot { obj: o, shadow: Shadow::new(), born: "" };
                 "ok".into()
             }
+            ("ctor", 10) => self.ctor(p(1), toks[2], toks[3], toks[4], p(5), p(6), toks[7], toks[8], toks[9]),
             ("intern", 3) => self.intern(p(1), &unhex(toks[2]), None, false, via),
             // a long string given compactly: the prefix, padded with 'a' to the length (implementation-only
             // streams; the model driver does not know this op)
@@ -629,17 +765,24 @@ impl<K: KeyT> World<K> {
             }),
             ("max", 2) => self.slot(p(1)).obj.max_mem().map(show_limit).unwrap_or_else(|| "0".into()),
             ("setLimit", 3) => {
-                let l = lasso::MemoryLimits::for_memory_usage(parse_limit(toks[2]).unwrap_or(usize::MAX));
-                match &mut self.slot(p(1)).obj {
+                let lim = parse_limit(toks[2]).unwrap_or(usize::MAX);
+                let l = lasso::MemoryLimits::for_memory_usage(lim);
+                let done = match &mut self.slot(p(1)).obj {
                     Obj::Rodeo(r) => {
                         r.set_memory_limits(l);
-                        "ok".into()
+                        true
                     }
                     Obj::Threaded(t, _) => {
                         t.set_memory_limits(l);
-                        "ok".into()
+                        true
                     }
-                    _ => "bad-op".into(),
+                    _ => false,
+                };
+                if done {
+                    self.slot(p(1)).shadow.limit = Some(lim);
+                    "ok".into()
+                } else {
+                    "bad-op".into()
                 }
             }
             ("clear", 2) => {
